@@ -152,14 +152,17 @@ func hookUJSON(kind int) func(index int, c *CaseJSON[scriptU]) error {
 
 // one case through MarshalJSON: failure reported iff the independent per-case oracle says so
 //
-//verif:harness C20 quick mode=0..4 pred=0..2 cons=0..1 hooks=0..3
-//verif:harness C20 thorough mode=0..4 pred=0..8 cons=0..2 hooks=4..15
+//verif:harness C20 quick mode=0..5 pred=0..2 cons=0..1 hooks=0..3
+//verif:harness C20 thorough mode=0..5 pred=0..8 cons=0..2 hooks=4..15
 func H_C20_marshalJSON(mode int, pred int, cons int, hooks int) {
 	if pred >= 2 && mode == 4 {
 		return // the text of a panic error contains a stack trace: only AnyError is meaningful there
 	}
 	before, after := hooks%4, hooks/4
 	expected := vStr("expected", 2)
+	if mode == 5 {
+		expected = "" // a nil result is the right data exactly for the empty text
+	}
 	actual := expected
 	if mode == 1 {
 		actual = vStr("actual", 2)
@@ -191,7 +194,7 @@ func H_C20_marshalJSON(mode int, pred int, cons int, hooks int) {
 				want = true // data alongside an expected error
 			}
 		default:
-			want = mode >= 1 // wrong data, any error, panic
+			want = mode >= 1 && mode != 5 // wrong data, any error, panic
 		}
 	}
 	vAssert("no-panic-escapes", !escaped)
